@@ -153,6 +153,25 @@ PROPS["C08"] = {
                    "'only that port adjusts the clock' is observed as: sync/delay measurements reach a filter only on the Slave port (the clock is steered by the filter, which is the host's)"],
 }
 
+PROPS["C10"] = {
+    "streams": [{"name": "master"}, {"name": "inst"}],
+    "model_is_spec": ["master", "inst"],
+    "spec_theorem": "the model's Follow_Up / Delay_Resp / Pdelay_Resp(_Follow_Up) are exact (C10.followUp_exact … pdelayRespFu_exact), every model frame is well-formed for its port and numbered consecutively (C10.portHandler_frames, seq_numbers_consecutive)",
+    "rule": "master: runs of 66 000 Sync (thorough: also Announce and Pdelay_Req) emissions from one port through the sequence number "
+            "wrap, then dense master-side traffic on one to three ports: Sync + transmit timestamp (lost, duplicated, stale), Delay_Req "
+            "and Pdelay_Req from arbitrary requesters with corrections up to ±2^63, timestamps at 0, below 1 ns, nanosecond/second "
+            "carries, sub-ns patterns and just below 2^48 s; inst: mixed host histories with master ports sending Sync / Announce on their timers, transmit timestamps over the "
+            "PTP range incl. sub-ns fractions reported for every pending Sync / Pdelay_Resp (and stale / duplicate ones), Delay_Req and "
+            "Pdelay_Req frames with corrections of every sign and magnitude, arbitrary requester identities, sequence numbers and flags, "
+            "in every port state. Compared: every emitted frame (bit-exact), its interface, timestamp context and the timer actions. "
+            "Independent oracle (own Clause 13 reader + the library's own parser): Follow_Up / Delay_Resp / Pdelay_Resp(_FU) count, echo and "
+            "time arithmetic; source identity, domain, sdoId, version, messageLength, size <= 1024; per (port, type) sequence numbers +1 "
+            "mod 2^16; <= 1 event send per action set. distinct = distinct ops that emitted a frame",
+    "explanation": "Lean: exactness per constructor (wire_roundtrip), decode∘encode on every constructor, Frames for every handler, consecutive numbering by induction over histories",
+    "assumptions": INST_ASSUME + ["configuration and identity fields are in the range of their Rust types (u4/u8/u16/u64/i8): PortRanges / DfltRanges",
+                   "transmit / receive timestamps handed in by the host lie in the PTP range (< 2^48 s)"],
+}
+
 
 def split_obs(obs):
     """(items, status, state) of an instance-stream observation line"""
@@ -201,6 +220,14 @@ def projection(pid, stream, profile):
             st = state_part(obs)
             return " ; ".join(keep) + " | " + m + " | " + st
         return f8
+    if pid == "C10":
+        def f10(op, obs):
+            items = obs.split(" | ")[0].split(" ; ")
+            keep = [it for it in items if ":send " in it or ":reset " in it]
+            if not any(":send " in it for it in keep):
+                return None
+            return " ; ".join(keep)
+        return f10
     if pid == "C07":
         def f7(op, obs):
             return obs if "#ins:" in op else None
@@ -240,4 +267,4 @@ def replay_body(pid, stream, ops, idx):
     return ops[idx] + "\n"
 
 
-STATEFUL = {"inst", "bmca", "fml", "c07"}
+STATEFUL = {"inst", "bmca", "fml", "c07", "master"}
